@@ -6,11 +6,14 @@ import atexit, concurrent.futures, hashlib, json, os, pathlib, random, re, shuti
 ROOT = pathlib.Path(__file__).resolve().parent.parent
 COQ = ROOT / 'coq'
 BUILD = ROOT / 'build'
-REPO = pathlib.Path('/repo')
-TARGET = BUILD / 'target'
+# The registered checks always run against /repo. VERIF_REPO=<scratch copy of /repo> is a developer
+# aid for trying a seeded change without touching /repo (separate harness copy and target dirs).
+REPO = pathlib.Path(os.environ.get('VERIF_REPO', '/repo'))
+ALT = REPO != pathlib.Path('/repo')
+TARGET = BUILD / ('target-alt' if ALT else 'target')
 DRIVER = BUILD / 'ocaml' / 'driver'
 LIBDRIVE = TARGET / 'debug' / 'libdrive'
-CLI_TARGET = BUILD / 'cli-target'
+CLI_TARGET = BUILD / ('cli-target-alt' if ALT else 'cli-target')
 TYPESHARE = CLI_TARGET / 'debug' / 'typeshare'
 EVIDENCE = ROOT / 'evidence'
 REPLAY = EVIDENCE / 'replay'
@@ -162,6 +165,13 @@ def build_harness():
     """cargo build of libdrive against /repo's current working tree, hooks enabled."""
     t0 = time.time()
     hd = ROOT / 'harness' / 'libdrive'
+    if ALT:
+        alt = BUILD / 'harness-alt'
+        shutil.rmtree(alt, ignore_errors=True)
+        shutil.copytree(hd, alt, ignore=shutil.ignore_patterns('target'))
+        for f in (alt / 'Cargo.toml', alt / 'build.rs'):
+            f.write_text(f.read_text().replace('/repo/', str(REPO) + '/'))
+        hd = alt
     shutil.copy(REPO / 'Cargo.lock', hd / 'Cargo.lock')
     env = dict(ENV, CARGO_TARGET_DIR=str(TARGET), RUSTFLAGS=f'--cfg {GUARD}')
     rc, out, err = run(['cargo', 'build', '--offline', '-q'], cwd=hd, env=env, timeout=1800)
